@@ -27,6 +27,8 @@ func checkC13(r *Report, p *Program) {
 	nilKnownNotDereferenced(r, p, "R13.8")
 	lookupResultsChecked(r, p, "R13.9")
 	constantSlicesBounded(r, p, "R13.10", 1)
+	// pointer fields of hook answers (customize rules) are nil when the hook leaves them out
+	optionalFieldsChecked(r, p, "R13.11", 10)
 	// shouldContinueRolling hands latest.desiredChildMap[name] to ApplyUpdate unchecked: what makes that
 	// non-nil is that syncRevisionClaims keeps, for EVERY revision incl. the latest, only names the latest desires
 	r09_5(r, p)
